@@ -76,6 +76,19 @@ func modeC02(e *Env) {
 		RunStreamScenario(e.Rec, &StreamScenario{ID: id, Fam: "c02", Log: l, Start: l.Boundaries()[0], ServerID: 7,
 			Attempts: []AttemptPlan{a}, Note: "unknown-verbs"})
 	}
+	// binlog_checksum is switched while the stream runs (SET GLOBAL binlog_checksum rotates the log): the next file's format
+	// description announces the other algorithm, and its events are framed accordingly
+	for i := 0; i < e.N(4, 32); i++ {
+		l := logFromAbstract(e.R, cfgs[e.R.Intn(len(cfgs))], gp, []interface{}{"txxid", "rotate", "txcommit", "ddl", "txxid", "txrollback", "rotate", "autorow", "txcommit"})
+		flip := !l.Cfg.Checksum
+		l.Files[1].Cksum = &flip
+		l.Layout()
+		a := defaultAttempt()
+		a.Pacing = "lockstep"
+		id++
+		RunStreamScenario(e.Rec, &StreamScenario{ID: id, Fam: "c02", Log: l, Start: l.Boundaries()[0], ServerID: 7,
+			Attempts: []AttemptPlan{a}, Note: "checksum-switched-at-rotation"})
+	}
 	// every casing of begin (2^5), commit (2^6), rollback (2^8)
 	step := e.N(16, 1)
 	for m := 0; m < 256; m += step {
